@@ -17,7 +17,7 @@ import (
 
 func init() {
 	register(ruleDef{ID: "R18.1", Prop: "C18", Tier: "quick", Floor: 6,
-		Title: "block-coordinate key codec: z, y, x in that order, each 4-byte big-endian of (coordinate − MinInt32) computed in 64 bits; the decoder reads the same regions with the inverse bias into the same components after checking the length",
+		Title: "block-coordinate key codec: z, y, x in that order, each 4-byte big-endian of the coordinate with its sign bit flipped (c − MinInt32 modulo 2^32); the decoder reads the same regions with the inverse bias into the same components after checking the length",
 		Fn:    ruleR18_1})
 	register(ruleDef{ID: "R18.2", Prop: "C18", Tier: "quick", Floor: 6,
 		Title: "packed block index: encoder and both decoders agree on the magnitude mask, the sign flag, the shift and the z,y,x packing order, and the constants are mutually consistent (flag = mask+1, shift = bits(mask)+1)",
@@ -141,6 +141,14 @@ func biasOf(v ssa.Value) (ssa.Value, int64, bool) {
 					continue
 				}
 			}
+			if x.Op == token.XOR {
+				// flipping the sign bit of a 32-bit value is adding 2^31 modulo 2^32
+				if k, ok := constU64(x.Y); ok && k == 0x80000000 {
+					bias += 0x80000000
+					v = x.X
+					continue
+				}
+			}
 		}
 		break
 	}
@@ -212,6 +220,12 @@ func getEntries(f *ssa.Function) []codecEntry {
 							next = x
 						}
 					}
+					if x.Op == token.XOR {
+						if k, ok := constU64(x.Y); ok && k == 0x80000000 {
+							e.bias += 0x80000000
+							next = x
+						}
+					}
 				case *ssa.Store:
 					if x.Val == v {
 						e.path = normPath(destPath(x.Addr, f))
@@ -261,6 +275,10 @@ func destPath(addr ssa.Value, f *ssa.Function) string {
 	return p
 }
 
+// signBias: the bias is 2^31 modulo 2^32, i.e. it flips exactly the sign bit of a 32-bit value.  Go's
+// integer arithmetic wraps, so int32, uint32 and int64 computations of it produce the same 32 bits.
+func signBias(b int64) bool { return uint32(b) == 0x80000000 }
+
 func entriesString(es []codecEntry) string {
 	var parts []string
 	for _, e := range es {
@@ -277,7 +295,6 @@ func ruleR18_1(r *Run) {
 		r.violation("dvid.Point3d.ToZYXBytes/FromZYXBytes", "key codec not found", "-")
 		return
 	}
-	const minInt32 = -2147483648
 	pe, ge := putEntries(enc), getEntries(dec)
 	want := []string{"[2]", "[1]", "[0]"}
 	okE := len(pe) == 3
@@ -289,10 +306,8 @@ func ruleR18_1(r *Run) {
 			okE, why = false, "regions are not three consecutive 4-byte fields"
 		case e.endian != "big":
 			okE, why = false, "a coordinate is not written big-endian (byte order would not equal numeric order)"
-		case e.bias != -minInt32:
-			okE, why = false, "a coordinate is not biased by −MinInt32 (signed order would not map to unsigned order)"
-		case !e.widened:
-			okE, why = false, "the bias is not computed in 64 bits (overflows for non-negative coordinates)"
+		case !signBias(e.bias):
+			okE, why = false, "a coordinate is not biased by 2^31 modulo 2^32 (signed order would not map to unsigned order)"
 		case e.path != want[i]:
 			okE, why = false, "components are not written in z, y, x order"
 		}
@@ -300,7 +315,7 @@ func ruleR18_1(r *Run) {
 	if len(pe) != 3 {
 		why = fmt.Sprintf("%d fields written, expected 3", len(pe))
 	}
-	r.check(okE, "dvid.Point3d.ToZYXBytes:layout", "z,y,x × 4-byte big-endian of (c − MinInt32) in 64-bit: "+entriesString(pe),
+	r.check(okE, "dvid.Point3d.ToZYXBytes:layout", "z,y,x × 4-byte big-endian of (c − MinInt32 mod 2^32): "+entriesString(pe),
 		"block-coordinate key encoder: "+why+" — "+entriesString(pe), w.fpos(enc))
 	okD := len(ge) == 3
 	why = ""
@@ -311,10 +326,8 @@ func ruleR18_1(r *Run) {
 			okD, why = false, "regions differ from the encoder's"
 		case e.endian != "big":
 			okD, why = false, "a coordinate is not read big-endian"
-		case e.bias != minInt32:
-			okD, why = false, "the decoder's bias is not the inverse of the encoder's"
-		case !e.widened:
-			okD, why = false, "the inverse bias is not computed in 64 bits"
+		case !signBias(e.bias):
+			okD, why = false, "the decoder's bias is not the inverse of the encoder's (2^31 modulo 2^32)"
 		case e.path != want[i]:
 			okD, why = false, "a region is decoded into a different component than the one the encoder wrote there"
 		}
@@ -682,6 +695,26 @@ func ruleR18_3(r *Run) {
 			return
 		}
 		seq, en := streamSeq(f, fn)
+		if len(seq) == 0 {
+			// the same layout expressed with fixed-width accessors on a 16-byte buffer
+			var es []codecEntry
+			if fn == "Write" {
+				es = putEntries(f)
+			} else {
+				es = getEntries(f)
+			}
+			en = ""
+			for i, e := range es {
+				if e.lo == int64(4*i) && e.hi == int64(4*i+4) && e.bias == 0 {
+					seq = append(seq, e.path)
+					if en == "" || en == e.endian {
+						en = e.endian
+					} else {
+						en = "mixed"
+					}
+				}
+			}
+		}
 		r.check(strings.Join(seq, ",") == strings.Join(want, ",") && en == "little", "dvid.RLEs."+name+":sequence", "per run: "+strings.Join(seq, ",")+" "+en,
 			"run stream codec "+name+" deviates from x, y, z, length little-endian: "+strings.Join(seq, ",")+" "+en, w.fpos(f))
 		// element width: all four fields are int32
@@ -702,6 +735,37 @@ func ruleR18_3(r *Run) {
 	stream("MarshalBinary", "Write")
 	stream("UnmarshalBinary", "Read")
 	stream("UnmarshalBinaryReader", "Read")
+	// stream decoders never call Reader.Read directly (a short read is legal): io.ReadFull / binary.Read only
+	nr := 0
+	for _, f := range w.RepoFuncs {
+		if relPkg(pkgPathOf(f)) != "dvid" || len(f.Blocks) == 0 || strings.HasSuffix(w.fposFile(f), "_test.go") {
+			continue
+		}
+		var rd *ssa.Parameter
+		for _, p := range f.Params {
+			if p.Type().String() == "io.Reader" {
+				rd = p
+			}
+		}
+		if rd == nil {
+			continue
+		}
+		nr++
+		for _, c := range calls(f) {
+			if c.Common().IsInvoke() && c.Common().Method.Name() == "Read" {
+				direct := false
+				for _, rt := range roots(c.Common().Value, f) {
+					if rt.V == ssa.Value(rd) {
+						direct = true
+					}
+				}
+				if direct {
+					r.violation(fname(f)+":bare-Read", "a stream decoder calls Reader.Read directly: a reader may legally deliver fewer bytes than asked (network bodies do), so runs are decoded from partly filled buffers", w.pos(c.Pos()))
+				}
+			}
+		}
+	}
+	r.check(nr >= 2, "dvid:stream-decoders", fmt.Sprintf("%d functions of package dvid decode from an io.Reader; none calls Read directly", nr), "stream decoders of package dvid not found", "-")
 	// RLEs.UnmarshalBinary: run size 16 used for both the divisibility test and the count
 	if f := w.method("dvid", "RLEs", "UnmarshalBinary"); f != nil {
 		var ks []int64
@@ -845,4 +909,164 @@ func indexParamOf(v ssa.Value) string {
 		}
 	}
 	return ""
+}
+
+// ---------------------------------------------------------------------------------------------
+// R18.5 axis agreement
+
+func init() {
+	register(ruleDef{ID: "R18.5", Prop: "C18", Tier: "quick", Floor: 9,
+		Title: "axis agreement: wherever a block-size component meets a coordinate component in one operation (division, multiplication, helper call) both refer to the same axis (span elements z, y, x0, x1 count as axes 2, 1, 0, 0)",
+		Fn:    ruleR18_5})
+}
+
+// axisOf tags a value with the axis it is a component of: kind "bs" for a BlockSize component,
+// "pt" for a point/index component or Value(k) call, "span" for a dvid.Span element.
+func axisOf(v ssa.Value) (kind string, axis int, ok bool) {
+	v = stripConv(v)
+	switch x := v.(type) {
+	case *ssa.UnOp:
+		if x.Op != token.MUL {
+			return "", 0, false
+		}
+		ia, isIA := x.X.(*ssa.IndexAddr)
+		if !isIA {
+			return "", 0, false
+		}
+		k, isK := constInt(ia.Index)
+		if !isK {
+			return "", 0, false
+		}
+		return axisOfIndexed(ia.X, int(k))
+	case *ssa.Index:
+		k, isK := constInt(x.Index)
+		if !isK {
+			return "", 0, false
+		}
+		return axisOfIndexed(x.X, int(k))
+	case *ssa.Call:
+		if x.Call.IsInvoke() && x.Call.Method.Name() == "Value" && len(x.Call.Args) == 1 {
+			if k, isK := constInt(x.Call.Args[0]); isK {
+				return "pt", int(k), true
+			}
+		}
+		if callee := x.Call.StaticCallee(); callee != nil && callee.Name() == "Value" && len(x.Call.Args) == 2 {
+			if k, isK := constInt(x.Call.Args[1]); isK {
+				return "pt", int(k), true
+			}
+		}
+	}
+	return "", 0, false
+}
+
+func axisOfIndexed(base ssa.Value, k int) (string, int, bool) {
+	// what is being indexed?
+	t := base.Type()
+	if p, ok := t.(*types.Pointer); ok {
+		t = p.Elem()
+	}
+	// BlockSize field?
+	b := base
+	if ld, ok := b.(*ssa.UnOp); ok && ld.Op == token.MUL {
+		b = ld.X
+	}
+	if fa, ok := b.(*ssa.FieldAddr); ok {
+		if nm, _, _ := fieldName(fa); nm == "BlockSize" {
+			return "bs", k, true
+		}
+	}
+	if f, ok := b.(*ssa.Field); ok {
+		if st := derefStruct(f.X.Type()); st != nil && st.Field(f.Field).Name() == "BlockSize" {
+			return "bs", k, true
+		}
+	}
+	// a parameter or local named like a block size (spilled parameters are allocs with the parameter's name)
+	isBSName := func(n string) bool {
+		n = strings.ToLower(n)
+		return strings.Contains(n, "blocksize") || strings.Contains(n, "chunksize") || n == "blksize"
+	}
+	switch y := b.(type) {
+	case *ssa.Parameter:
+		if isBSName(y.Name()) {
+			return "bs", k, true
+		}
+	case *ssa.Alloc:
+		if isBSName(y.Comment) {
+			return "bs", k, true
+		}
+	}
+	if n := namedOf(t); n != nil {
+		switch n.Obj().Name() {
+		case "Span":
+			ax := map[int]int{0: 2, 1: 1, 2: 0, 3: 0}
+			if a, ok := ax[k]; ok {
+				return "span", a, true
+			}
+		case "Point3d", "ChunkPoint3d", "IndexZYX":
+			if k >= 0 && k < 3 {
+				return "pt", k, true
+			}
+		}
+	}
+	return "", 0, false
+}
+
+func ruleR18_5(r *Run) {
+	w := r.W
+	n := 0
+	for _, f := range w.RepoFuncs {
+		p := relPkg(pkgPathOf(f))
+		if !(p == "datatype/roi" || p == "dvid") || len(f.Blocks) == 0 || strings.HasSuffix(w.fposFile(f), "_test.go") {
+			continue
+		}
+		for _, b := range f.Blocks {
+			for _, in := range b.Instrs {
+				var ops []ssa.Value
+				switch x := in.(type) {
+				case *ssa.BinOp:
+					ops = []ssa.Value{x.X, x.Y}
+				case *ssa.Call:
+					ops = x.Call.Args
+				default:
+					continue
+				}
+				bsAxis := -1
+				for _, o := range ops {
+					if kd, ax, ok := axisOf(o); ok && kd == "bs" {
+						bsAxis = ax
+					}
+				}
+				if bsAxis < 0 {
+					continue
+				}
+				var others []int
+				for _, o := range ops {
+					if kd, ax, ok := axisOf(o); ok && kd != "bs" {
+						others = append(others, ax)
+					}
+				}
+				if len(others) == 0 {
+					continue
+				}
+				n++
+				okA := true
+				for _, a := range others {
+					if a != bsAxis {
+						okA = false
+					}
+				}
+				k := 0
+				for _, o := range r.Obls {
+					if strings.HasPrefix(o.Construct, fname(f)+":axis#") {
+						k++
+					}
+				}
+				r.check(okA, fmt.Sprintf("%s:axis#%d", fname(f), k+1), fmt.Sprintf("block size of axis %d meets coordinates of axis %d only", bsAxis, bsAxis),
+					fmt.Sprintf("the block size of axis %d is combined with a coordinate of axis %v: on non-cubic block sizes voxel and block coordinates no longer correspond", bsAxis, others), w.pos(in.Pos()))
+			}
+		}
+	}
+	if n < 10 {
+		r.note("R18.5: only %d block-size/coordinate operations found", n)
+	}
 }
